@@ -80,4 +80,8 @@ VARIANTS = [
     dict(name="twin: _run_optimizer override that only delegates", kind="twin", file="cotengra/hyperoptimizers/hyper.py",
          old="    def _get_suboptimizer(self):\n        return HyperOptimizer(**self._suboptimizer_kwargs)\n",
          new="    def _get_suboptimizer(self):\n        return HyperOptimizer(**self._suboptimizer_kwargs)\n\n    def _run_optimizer(self, inputs, output, size_dict):\n        return super()._run_optimizer(inputs, output, size_dict)\n"),
+    dict(name="seed C16_7: sub-optimizer recorded before its search", kind="break", file="cotengra/reusable.py",
+         old="        opt = self._get_suboptimizer()\n        tree = opt.search(inputs, output, size_dict)\n        thrid = threading.get_ident()\n        self._suboptimizers[thrid] = opt\n",
+         new="        opt = self._get_suboptimizer()\n        thrid = threading.get_ident()\n        self._suboptimizers[thrid] = opt\n        tree = opt.search(inputs, output, size_dict)\n",
+         expect=("C16-OWNRUN", "records-suboptimizer")),
 ]
